@@ -89,10 +89,10 @@ type Alt struct {
 	Reduce []int // simpler alternatives (indexes into the same list) tried when a failing case is minimised
 
 	HasHost, HasPath, HasHeaders, HasComp, HasTimeout bool
-	Host, Path                                         string // env URLs: Path is the URL's raw path component
-	Headers                                            map[string]string
-	Comp                                               string
-	Timeout                                            time.Duration
+	Host, Path                                        string // env URLs: Path is the URL's raw path component
+	Headers                                           map[string]string
+	Comp                                              string
+	Timeout                                           time.Duration
 }
 
 // Group is one setting group: the sources that can provide it.
@@ -168,7 +168,7 @@ func endpointGroup(e *Exporter, thorough bool) *Group {
 		if e.HTTP {
 			as = append(as,
 				envURL("valid(path)", -1, "http://"+h(p+"2")+"/"+p+"/path", h(p+"2"), "/"+p+"/path"),
-				envURL("valid(path, trailing slash)", -1, "http://"+h(p+"2")+"/"+p+"/path/", h(p+"2"), "/"+p+"/path/"),
+				envURL("valid(trailing slash)", -1, "http://"+h(p+"2")+"/"+p+"/path/", h(p+"2"), "/"+p+"/path/"),
 				envURL("valid(https, path)", -1, "https://"+h(p+"3")+"/"+p+"3", h(p+"3"), "/"+p+"3"),
 			)
 		} else {
@@ -676,11 +676,20 @@ func coarseTriples(g *Group) []pick {
 
 // Main is the body of every exporter harness.
 func Main(e *Exporter) {
-	names := []string{"single:endpoint", "single:headers", "single:compression", "single:timeout", "pairs"}
-	if os.Getenv("VERIF_TIER") == "thorough" {
+	thorough := os.Getenv("VERIF_TIER") == "thorough"
+	groupNames := []string{"endpoint", "headers", "compression", "timeout"}
+	names := []string{"single:endpoint", "single:headers", "single:compression", "single:timeout"}
+	if thorough {
+		for a := 0; a < len(groupNames); a++ {
+			for b := a + 1; b < len(groupNames); b++ {
+				names = append(names, "pairs:"+groupNames[a]+"x"+groupNames[b])
+			}
+		}
 		for i := 0; i < 27; i++ {
 			names = append(names, fmt.Sprintf("joint:%02d", i))
 		}
+	} else {
+		names = append(names, "pairs")
 	}
 	enum.Jobs(names, func(job string) {
 		r := enum.Start("C20", e.Name)
@@ -692,33 +701,54 @@ func Main(e *Exporter) {
 		}
 		th := r.Thorough()
 		x := &run{r: r, e: e, groups: []*Group{endpointGroup(e, th), headersGroup(th), compressionGroup(e, th), timeoutGroup(th)}}
+		reduced := int64(1)
 		for _, g := range x.groups {
 			r.Bound(g.Name+"_alternatives(option,specific,generic)", []int{len(g.Opt), len(g.Spec), len(g.Gen)})
+			n := [3]int64{}
+			for si, lst := range [][]Alt{g.Opt, g.Spec, g.Gen} {
+				for _, a := range lst {
+					if a.Coarse >= 0 {
+						n[si]++
+					}
+				}
+			}
+			reduced *= n[0] * n[1] * n[2]
 		}
 		r.Bound("settings_judged", []string{"endpoint", "path (HTTP)", "headers", "compression", "timeout"})
 		r.Bound("pairs_alphabet", enum.Pick(r, "{absent, valid, invalid} per source", "full alphabet per source"))
 		r.Section(job)
 		switch {
 		case strings.HasPrefix(job, "single:"):
+			// one setting group, full alphabet of every source, the other groups absent
 			for gi, g := range x.groups {
 				if g.Name == strings.TrimPrefix(job, "single:") {
 					x.product([]int{gi}, false, nil)
 				}
 			}
 		case job == "pairs":
-			// every pair of setting groups, each with its full source product
+			// every pair of setting groups over {absent, valid, invalid} per source
 			for a := 0; a < len(x.groups); a++ {
 				for b := a + 1; b < len(x.groups); b++ {
 					r.Section(job + ":" + x.groups[a].Name + "x" + x.groups[b].Name)
-					x.product([]int{a, b}, !th, nil)
+					x.product([]int{a, b}, true, nil)
+				}
+			}
+		case strings.HasPrefix(job, "pairs:"):
+			// one pair of setting groups, each with its full source product
+			for a := 0; a < len(x.groups); a++ {
+				for b := a + 1; b < len(x.groups); b++ {
+					if job == "pairs:"+x.groups[a].Name+"x"+x.groups[b].Name {
+						x.product([]int{a, b}, false, nil)
+					}
 				}
 			}
 		case strings.HasPrefix(job, "joint:"):
 			// the full cross product of {absent, valid, invalid} for every source of every
-			// setting group: 27^4 points, split by the endpoint triple
+			// setting group (sources that have no invalid value keep {absent, valid}), split by
+			// the endpoint triple
 			var i int
 			fmt.Sscanf(job, "joint:%d", &i)
-			r.Bound("joint_product", "27^4 = 531441 points per exporter")
+			r.Bound("joint_product_points", reduced)
 			x.product([]int{1, 2, 3}, true, map[int]pick{0: coarseTriples(x.groups[0])[i]})
 		}
 	})
